@@ -56,7 +56,7 @@ func checkC04(w *World, r *Report) {
 	c01CommitCrossed(w, r, a, "C04.a2", "a2-commit-crossed")
 	c01IndexWithData(w, r, a, "C04.a3", "a3-index-with-data")
 	c04Durability(w, r, a)
-	c04Publish(w, r)
+	c04Publish(w, r, "C04.c", "c-publish-protocol")
 	c04DirBeforePublish(w, r, a)
 	c04InstallOrder(w, r, a, "C04.e", "e-install-order")
 	c04Cleanup(w, r)
@@ -101,8 +101,8 @@ func c04Durability(w *World, r *Report, a *FsmA) {
 	ob.NeedFloor(2)
 }
 
-func c04Publish(w *World, r *Report) {
-	ob := r.Ob("C04.c", "c-publish-protocol", "SaveCurrentDBDirName: Create(tmp) then every Write then File.Sync before any success return; ReplaceCurrentDBFile: Rename then the directory sync, and the success return is the sync's result; CreateNodeDataDir: MkdirAll then sync of the parent; syncDir returns the result of Sync on the opened directory; on these paths the error of each non-deferred Create/Write/Sync/Rename/MkdirAll reaches a return", "a 'current' file that can be torn, or renamed without the directory being synced, lets a crash expose a half-switched state")
+func c04Publish(w *World, r *Report, id, slug string) {
+	ob := r.Ob(id, slug, "SaveCurrentDBDirName: Create(tmp) then every Write then File.Sync before any success return; ReplaceCurrentDBFile: Rename then the directory sync, and the success return is the sync's result; CreateNodeDataDir: MkdirAll then sync of the parent; syncDir returns the result of Sync on the opened directory; on these paths the error of each non-deferred Create/Write/Sync/Rename/MkdirAll reaches a return", "a 'current' file that can be torn, or renamed without the directory being synced, lets a crash expose a half-switched state")
 	save := w.Func("pebble", "SaveCurrentDBDirName")
 	repl := w.Func("pebble", "ReplaceCurrentDBFile")
 	mk := w.Func("pebble", "CreateNodeDataDir")
